@@ -65,7 +65,9 @@ PlainAlphabet ==
 ParamKinds == {[mut |-> m, ty |-> t] : m \in BOOLEAN, t \in {"scalar", "fixed", "var"}}
 RECURSIVE SeqsUpTo(_, _)
 SeqsUpTo(S, n) == IF n = 0 THEN {<<>>} ELSE LET T == SeqsUpTo(S, n - 1) IN T \cup {Append(t, x) : t \in {t \in T : Len(t) = n - 1}, x \in S}
-Signatures == {[ret |-> r, params |-> ps] : r \in BOOLEAN, ps \in SeqsUpTo(ParamKinds, MaxParams)}
+\* (a signature with neither a return type nor parameters cannot be written: PRAGMA EXTERN rejects it)
+Signatures == {sg \in {[ret |-> r, params |-> ps] : r \in BOOLEAN, ps \in SeqsUpTo(ParamKinds, MaxParams)} :
+                 sg.ret \/ sg.params # <<>>}
 ArgForms == {[t |-> "id", s |-> "a"], [t |-> "id", s |-> "b"], [t |-> "mref", m |-> Ref("a", 0)],
              [t |-> "mref", m |-> Ref("c", 1)], [t |-> "imm"]}
 ArgsOfLen(n) == {as \in SeqsUpTo(ArgForms, n) : Len(as) = n}
